@@ -76,3 +76,13 @@ def seq_fold(lst, step, init):
 def seg_val(seg):
     """the current value of a (mutable) segment object, as logged by the output model"""
     return seg
+
+
+def last_piece(s, sep):
+    """the last of the sep-separated pieces of s"""
+    return s.split(sep)[-1]
+
+
+def head_text(s, sep):
+    """everything before the last piece (empty, or ending with sep)"""
+    return s[:len(s) - len(s.split(sep)[-1])]
